@@ -82,7 +82,7 @@ PROPS = {
     'C16': dict(coq='Properties/C16.v', drivers=[_storm('C16', 'teardown,storm,cut', 3, 40)], rule=STORM_RULE,
                 assumptions=['Life/ConnLife.v is an abstract blocking model of one connection (not run against the code): sockets, scheduler and '
                              'timers assumed; the ring interface is what C15 proves; the order of teardown actions comes from T1']),
-    'C17': dict(coq='Properties/C17.v', drivers=[_storm('C17', 'storm,cut', 3, 60), _broker('C17', 60, 1500)], rule=STORM_RULE,
+    'C17': dict(coq='Properties/C17.v', drivers=[_storm('C17', 'storm,cut,resume', 3, 60), _broker('C17', 60, 1500)], rule=STORM_RULE,
                 assumptions=['Ring/Writers.v models writers over the byte-granular ring; mutual exclusion of sync.Mutex assumed; wmu region and '
                              'ring roles come from T1']),
     'C18': dict(coq='Properties/C18.v', drivers=[_storm('C18', 'storm,cut,teardown,churn', 3, 25, race=True)], rule=STORM_RULE + ' Run under the Go race detector.',
